@@ -2,7 +2,7 @@
    Opcodes are documented in harness/ops.py (kept in sync by hand; an unknown opcode or a
    malformed argument yields sx_bad, which the harness treats as a harness error). *)
 From HT Require Import Model.Str Model.Sx Model.Tree Model.Escape Model.Render Model.Codec
-     Model.TagTable Gen.Tables Spec.Layout Spec.StripMeta.
+     Model.TagTable Gen.Tables Spec.Layout Spec.StripMeta Model.Concat Model.Tagify.
 
 Definition unit_of_sx (x : sx) : option unit := Some tt.
 Definition sx_unit (u : unit) : sx := L [].
@@ -46,6 +46,33 @@ Definition run (x : sx) : sx :=
     match map_opt unode_of_sx l, nat_of_sx i, str_of_sx eol with
     | Some l', Some i', Some e' =>
       L [sx_bool (forallb valid_nesting l'); sx_str (spec_list_layout i' e' l')]
+    | _, _, _ => sx_bad
+    end
+  (* 7: C04: value of a + expression (None = TypeError) and how it renders as a child *)
+  | L [A 7; e] =>
+    match cexpr_of_sx e with
+    | Some e' => match eval e' with
+                 | Some v => L [A 1; sx_cval v; sx_str (child_str v)]
+                 | None => L [A 0]
+                 end
+    | None => sx_bad
+    end
+  (* 8: C09: Tag.tagify() then get_html_string(indent, eol): tagified tree and markup *)
+  | L [A 8; n; i; eol] =>
+    match unode_of_sx n, nat_of_sx i, str_of_sx eol with
+    | Some n', Some i', Some e' =>
+      match tag_tagify n' with
+      | [t] => L [sx_node sx_unit t; sx_res sx_str (tag_html i' e' t)]
+      | _ => sx_bad
+      end
+    | _, _, _ => sx_bad
+    end
+  (* 9: C09: TagList.tagify() then get_html_string *)
+  | L [A 9; L l; i; eol] =>
+    match map_opt unode_of_sx l, nat_of_sx i, str_of_sx eol with
+    | Some l', Some i', Some e' =>
+      let t := taglist_tagify l' in
+      L [L (map (sx_node sx_unit) t); sx_res sx_str (list_html i' e' true true t)]
     | _, _, _ => sx_bad
     end
   (* 10: the regenerated wrapper tables and name sets *)
